@@ -1,7 +1,7 @@
 #!/venv/bin/python
 """Intake of a behaviour-preserving refactoring produced by an independent sub-agent (false-alarm probe).
 
-usage: tools/refactor_intake.py <name> <worktree> <property-id> [--no-copy]
+usage: tools/refactor_intake.py <name> <worktree> <property-id> [--no-copy] [--scratch]
 
 1. copies <worktree>/_refactor/{patch.diff,equiv.py,meta.json} to /verif/benign/<name>/
 2. confirms in a fresh scratch worktree of /repo (under mktemp, removed afterwards):
@@ -36,6 +36,8 @@ def main():
     ap.add_argument("pid")
     ap.add_argument("--no-copy", action="store_true")
     ap.add_argument("--checks", default=None)
+    ap.add_argument("--scratch", action="store_true", help="run the checks with --root on the scratch tree instead of patching /repo "
+                                                           "(needed when the patch adds files; nothing touches /repo)")
     a = ap.parse_args()
     src = os.path.join(a.worktree, "_refactor")
     dst = os.path.join(VERIF, "benign", a.name)
@@ -51,19 +53,23 @@ def main():
     meta["property"] = a.pid
     ran = []
     scratch = tempfile.mkdtemp(prefix="refchk-")
-    os.rmdir(scratch)
-    rc, out = sh(f"git -C /repo worktree add -q --detach {scratch} HEAD")
+    if a.scratch:
+        rc, out = sh(f"git -C /repo archive HEAD | tar -x -C {scratch}")
+    else:
+        os.rmdir(scratch)
+        rc, out = sh(f"git -C /repo worktree add -q --detach {scratch} HEAD")
     assert rc == 0, out
+    alarms = {}
     try:
         # the agent's script hard-codes its own worktree path: rewrite it to the scratch tree
         eq = open(os.path.join(dst, "equiv.py")).read()
-        eq = re.sub(r"/tmp/wt-C\d\d", scratch, eq)
+        eq = re.sub(r"/tmp/wt6?-C\d\d", scratch, eq)
         os.makedirs(os.path.join(scratch, "_refactor"), exist_ok=True)
         open(os.path.join(scratch, "_refactor", "equiv.py"), "w").write(eq)
         env = dict(os.environ, PYTHONPATH=os.path.join(scratch, "src"), PYTHONHASHSEED="0")
         rc_rec, out_rec = sh("/venv/bin/python -W ignore _refactor/equiv.py record", cwd=scratch, env=env)
         ran.append(f"clean tree: equiv.py record -> exit {rc_rec}")
-        rc, out = sh(f"git apply {os.path.join(dst, 'patch.diff')}", cwd=scratch)
+        rc, out = sh(f"patch -s -p1 < {os.path.join(dst, 'patch.diff')}" if a.scratch else f"git apply {os.path.join(dst, 'patch.diff')}", cwd=scratch)
         ran.append(f"git apply patch.diff -> exit {rc}")
         applies = rc == 0
         rc_t, out_t = sh("/venv/bin/python -W ignore -m pytest -q -p no:cacheprovider 2>&1 | tail -1", cwd=scratch, env=env)
@@ -76,14 +82,21 @@ def main():
             same = same and rc_c == 0
         rc_cc, _ = sh("/venv/bin/python -W ignore -m compileall -q src", cwd=scratch, env=env)
         n_lines = sum(1 for l in open(os.path.join(dst, "patch.diff")) if l[:1] in "+-" and l[:3] not in ("+++", "---"))
+        confirmed = applies and rc_rec == 0 and same and "689 passed" in out_t and rc_cc == 0
+        if a.scratch and confirmed:
+            shutil.rmtree(os.path.join(scratch, "_refactor"), ignore_errors=True)
+            for pid in (a.checks.split(",") if a.checks else ALL):
+                rc, out = sh(f"./check {pid} --no-evidence --tier quick --root {scratch}", cwd=VERIF)
+                if rc != 0:
+                    lines = [l for l in out.splitlines() if "violation rule=" in l or "ANALYSIS-ERROR" in l]
+                    alarms[pid] = {"exit": rc, "lines": [l.strip()[:300] for l in lines[:6]]}
     finally:
-        sh(f"git -C /repo worktree remove --force {scratch}")
+        if not a.scratch:
+            sh(f"git -C /repo worktree remove --force {scratch}")
         shutil.rmtree(scratch, ignore_errors=True)
-    confirmed = applies and rc_rec == 0 and same and "689 passed" in out_t and rc_cc == 0
     meta["confirmed"] = bool(confirmed)
     meta["changed_lines"] = n_lines
-    alarms = {}
-    if confirmed:
+    if confirmed and not a.scratch:
         rc, out = sh("git -C /repo status --porcelain")
         assert out.strip() == "", "/repo is not clean: " + out
         rc, out = sh(f"git -C /repo apply {os.path.join(dst, 'patch.diff')}")
